@@ -1797,7 +1797,10 @@ void ConnectorCrossings::countForSegment(size_t cIndex, const bool finalSegment)
 
     // Allocate arrays for computing shared paths.
     // Don't use dynamic array due to portablity issues.
-    size_t max_path_size = std::min(poly_size, conn.size());
+    // A cluster boundary is closed and wraps around, so there only the
+    // connector bounds the length of a shared path.
+    size_t max_path_size = (polyIsConn) ?
+            std::min(poly_size, conn.size()) : conn.size();
     Avoid::Point **c_path = new Avoid::Point*[max_path_size];
     Avoid::Point **p_path = new Avoid::Point*[max_path_size];
     size_t size = 0;
